@@ -200,6 +200,17 @@ func c08Generate(r *rand.Rand, id int) *c07Case {
 			g.seq("undelete", g.tomb(e, 0))
 		}
 	}
+	if id%3 == 1 {
+		// the last thing that happens (no restart follows): one foreign batch that mixes a value the client's field type
+		// cannot take (a level of -3 or 300 for a uint8) with values for the fields declared after it
+		lvl := []float64{-3, 300}[r.Intn(2)]
+		pts := []sPoint{{Type: "level", Time: g.tick(), VBits: math.Float64bits(lvl), Origin: "u1"},
+			{Type: "description", Time: g.tick(), Text: "after the level", Origin: "u1"},
+			{Type: "value", Time: g.tick(), VBits: math.Float64bits(12.5), Origin: "u1"}}
+		g.steps = append(g.steps, c07Step{Kind: 1, Ops: []sOp{{Kind: "np", Node: "c1", Points: pts}}})
+		g.foreign++
+		g.kinds["batch-with-a-value-the-field-refuses"]++
+	}
 	c := g.finish(id, kind, "c08")
 	c.OpKinds["own-authored-batches"] = g.own
 	c.OpKinds["foreign-batches"] = g.foreign
